@@ -68,6 +68,11 @@ def stepOp (q : PQ) (tok : String) : Except String (PQ × String) :=
     | some q' => .ok (q', "ok")
     | none => .error "panic"
   | ["r"] => .ok (q.reset, "ok")
+  | ["z", n] =>
+    -- the packet size in force changes (PACKSIZE env change): no operation on received data depends on it
+    match n.toNat? with
+    | some _ => .ok (q, "ok")
+    | none => .error "bad-op"
   | ["e"] => .ok (q, if q.isEOM then "1" else "0")
   | ["c"] => .ok (q, if q.allConsumed then "1" else "0")
   | ["dump"] => .ok (q, toHex (flat q.queue))
